@@ -833,7 +833,7 @@ func NewAlgebraCase(r *rand.Rand, name string) *Case {
 		case 0:
 			restr = []*openfgav1.RelationReference{Ref("user", "", true, "")}
 			wild[rn] = true
-		case 1, 2:
+		case 1, 2, 3:
 			restr = []*openfgav1.RelationReference{Ref("user", "", false, ""), Ref("user", "", true, "")}
 			wild[rn], plain[rn] = true, true
 		default:
@@ -850,6 +850,11 @@ func NewAlgebraCase(r *rand.Rand, name string) *Case {
 	var expr func(depth int, self string) *openfgav1.Userset
 	expr = func(depth int, self string) *openfgav1.Userset {
 		if depth == 0 || r.Intn(100) < 35 {
+			// derived relations are preferred as operands half of the time: chains of operators across
+			// relations (an exclusion under a union under an intersection) are the point
+			if len(avail) > nBase && r.Intn(2) == 0 {
+				return computed(avail[nBase+r.Intn(len(avail)-nBase)])
+			}
 			return computed(avail[r.Intn(len(avail))])
 		}
 		operands := func(n int) []*openfgav1.Userset {
@@ -887,7 +892,7 @@ func NewAlgebraCase(r *rand.Rand, name string) *Case {
 		}
 		return ch[0]
 	}
-	nDer := 2 + r.Intn(3)
+	nDer := 3 + r.Intn(3)
 	for i := 0; i < nDer; i++ {
 		rn := fmt.Sprintf("t%d", i+1)
 		td.Relations[rn] = expr(2, rn)
